@@ -412,13 +412,27 @@ def run(job, seed):
                 if extra:
                     layout['policy.d/o.yaml'] = world.dumps_policy(extra)
                 w.mkdir('policy.d')
-                for rel, text in layout.items():
-                    w.write(rel, text)
                 conf = world.new_conf(w.root, policy_dirs=['policy.d'])
                 enf = P.Enforcer(conf)
                 enf.suppress_deprecation_warnings = True
                 enf.register_defaults(defaults)
-                names = sorted(set(reg_names) | set(f))
+                hist = idx % 2 == 0
+                if hist:
+                    # the service's enforcer has been running: it loaded an
+                    # EARLIER state of the operator's files (other overrides,
+                    # one more directory file) before the present one
+                    w.write('policy.yaml', world.dumps_policy(
+                        {reg_names[0]: 'role:z', 'hist:x': 'role:z'}))
+                    w.write('policy.d/h.yaml', world.dumps_policy(
+                        {reg_names[-1]: 'role:z'}))
+                    enf.enforce(reg_names[0], {}, {'roles': ['z']})
+                    w.delete('policy.d/h.yaml')
+                for rel, text in layout.items():
+                    w.write(rel, text)
+                if hist:
+                    enf.enforce(reg_names[0], {}, {'roles': ['z']})
+                names = sorted(set(reg_names) | set(f) | {'hist:x'})
+                case['enforcer_has_history'] = hist
                 cfg.CONF.reset()
                 try:
                     with world.entry_points(enforcers={'ns': enf}):
